@@ -1,5 +1,5 @@
 SPECIFICATION Spec
-CONSTANTS K = 2 CloseGuardOwn = TRUE CancelWakesAccept = FALSE ShutdownClaims = TRUE TrackChecksDown = TRUE UnmarkAfterWrite = TRUE StartupSafe = TRUE ListenerMayFail = FALSE FailureDistinct = TRUE Emit = FALSE
+CONSTANTS K = 2 CloseGuardOwn = TRUE CancelWakesAccept = FALSE ShutdownClaims = TRUE TrackChecksDown = TRUE UnmarkAfterWrite = TRUE StartupSafe = TRUE ListenerMayFail = FALSE FailureDistinct = TRUE TimeoutIsError = TRUE RetryWaits = TRUE Emit = FALSE
 INVARIANT NoCrash
 INVARIANT TrueCount
 INVARIANT RejectedClosed
